@@ -252,9 +252,10 @@ Definition sort_of (s : fifsort) : cifsort :=
 Section Translation.
   Variable codata : list ctydecl.     (* CompileState.codata_types *)
   Variable cur : string.              (* CompileState.current_label *)
-  (* [true]: the goto translation as it was BEFORE fix commit 126604b of /repo (target covariable typed
-     with the goto expression's own annotation) - kept only for the regression lemma
-     fun2core_goto_unbound_before_fix; [false]: the current code (type of the goto's argument) *)
+  (* [true]: the translation as it was BEFORE the fix commits 126604b (goto: target covariable typed
+     with the goto expression's own annotation) and <commitcap> (let / case: the continuation was placed
+     under a binder of a name it mentions) - kept only for the regression lemmas
+     fun2core_goto_unbound_before_fix and fun2core_capture_before_fix; [false]: the current code *)
   Variable goto_legacy : bool.
 
   (* compile.rs: share *)
@@ -292,6 +293,29 @@ Section Translation.
     dom a <- fresh_covar;
     dom s <- wc (CXVar CCns (new_id a) ty);
     mret (CMu CPrd (new_id a) s ty).
+
+  (* compile.rs: captures - does the continuation mention one of the binders (by name) freely? *)
+  Definition captures (binders : list fname) (cont : cterm) : bool :=
+    let fvs := tfv_term cont [] in
+    existsb (fun b => existsb (fun bb => String.eqb (fst (cbvar bb)) b) fvs) binders.
+  (* compile.rs: compile_outside_cont, as used by terms/let.rs and terms/case.rs.  [w] is the rest of
+     compile_with_cont of the term (after the check).  When a binder of the term occurs free in the
+     continuation, the continuation is named by a fresh covariable and stays outside:
+     < mu a. [[t]]_a | cont >.  `term.compile(..)` is the default method: it draws the covariable and
+     calls compile_with_cont again, which repeats the check on the covariable (a second hit would recurse
+     without bound; it cannot happen, the covariable is fresh for all binders of the definition). *)
+  Definition guard_capture (binders : list fname) (w : cterm -> M cstmt) (ty : option fty) (cont : cterm) : M cstmt :=
+    if goto_legacy then w cont
+    else if captures binders cont then
+      dom ty <- mlift (expect_ty ty);
+      let cty := compile_ty ty in
+      dom a <- fresh_covar;
+      let c' := CXVar CCns (new_id a) cty in
+      dom s <- (if captures binders c'
+                then mfail "compile_outside_cont: the fresh covariable is captured again"
+                else w c');
+      mret (CCut (CMu CPrd (new_id a) s cty) cty cont)
+    else w cont.
 
   (* terms/variable.rs *)
   Definition cmp_var (v : fname) (ty : option fty) : M cterm :=
@@ -441,12 +465,14 @@ Section Translation.
     | FIfC s a b t1 t2 _ =>
         wc_ifc s (cmp a CI64) (match b with Some b' => Some (cmp b' CI64) | None => None end) (wc t1) (wc t2) cont
     | FPrint nl a next _ => wc_print nl (cmp a CI64) (wc next) cont
-    | FLet v vty bound body _ => wc_let v vty (cmp bound) (wc bound) (wc body) cont
+    | FLet v vty bound body lty => guard_capture [v] (wc_let v vty (cmp bound) (wc bound) (wc body)) lty cont
     | FCall f args ret => wc_call f (subst_with (fun y => cmp y) args) ret cont
     | FCtor x args ty => wc_ctor x (subst_with (fun y => cmp y) args) ty cont
     | FDtor scrut x _ args _ => wc_dtor (wc scrut) (fterm_type scrut) x (subst_with (fun y => cmp y) args) cont
-    | FCase scrut _ cls _ =>
-        wc_case (wc scrut) (fterm_type scrut) (List.length cls) (fun cont' => clauses_with (fun b => wc b) cont' cls) cont
+    | FCase scrut _ cls cty' =>
+        guard_capture (flat_map (fun c => match c with FClause _ _ _ ctx _ => fvars ctx end) cls)
+          (wc_case (wc scrut) (fterm_type scrut) (List.length cls) (fun cont' => clauses_with (fun b => wc b) cont' cls))
+          cty' cont
     | FNew cls ty => wc_new (coclauses_with (fun b => wc b) cls) ty cont
     | FLabel l t' ty => wc_label l (wc t') ty cont
     | FGoto l t' ty => wc_goto l (wc t') ty (fterm_type t')
@@ -462,14 +488,17 @@ Section Translation.
         default_compile
           (wc_ifc s (cmp a CI64) (match b with Some b' => Some (cmp b' CI64) | None => None end) (wc t1) (wc t2)) ty
     | FPrint nl a next _ => default_compile (wc_print nl (cmp a CI64) (wc next)) ty
-    | FLet v vty bound body _ => default_compile (wc_let v vty (cmp bound) (wc bound) (wc body)) ty
+    | FLet v vty bound body lty =>
+        default_compile (guard_capture [v] (wc_let v vty (cmp bound) (wc bound) (wc body)) lty) ty
     | FCall f args ret => default_compile (wc_call f (subst_with (fun y => cmp y) args) ret) ty
     | FCtor x args cty' => cmp_ctor x (subst_with (fun y => cmp y) args) cty'
     | FDtor scrut x _ args _ =>
         default_compile (wc_dtor (wc scrut) (fterm_type scrut) x (subst_with (fun y => cmp y) args)) ty
-    | FCase scrut _ cls _ =>
+    | FCase scrut _ cls cty' =>
         default_compile
-          (wc_case (wc scrut) (fterm_type scrut) (List.length cls) (fun cont' => clauses_with (fun b => wc b) cont' cls)) ty
+          (guard_capture (flat_map (fun c => match c with FClause _ _ _ ctx _ => fvars ctx end) cls)
+             (wc_case (wc scrut) (fterm_type scrut) (List.length cls) (fun cont' => clauses_with (fun b => wc b) cont' cls))
+             cty') ty
     | FNew cls nty => cmp_new (coclauses_with (fun b => wc b) cls) nty
     | FLabel l t' lty => cmp_label l (wc t') lty
     | FGoto l t' gty => default_compile (fun _ => wc_goto l (wc t') gty (fterm_type t')) ty
